@@ -13,6 +13,8 @@ type cloner struct {
 }
 
 func (rt *runtime) clone() *runtime {
+	rt.verifSync(0)
+	defer rt.verifSync(1)
 	rt.lck.Lock()
 	defer rt.lck.Unlock()
 
